@@ -8,38 +8,58 @@ for d in sorted(glob.glob(V + '/seeded/*/meta.json')):
     rows.append(m)
 missed = [m for m in rows if m['initially_missed']]
 own = sorted(os.path.basename(f) for f in glob.glob(V + '/mutants/*.diff'))
+waves = {}
+for m in rows:
+    w = m['name'].split('-')[1][0]
+    waves.setdefault(w, [0, 0])
+    waves[w][1] += 1
+    if m['initially_missed']:
+        waves[w][0] += 1
+ordn = ['first', 'second', 'third', 'fourth', 'fifth', 'sixth', 'seventh', 'eighth', 'ninth', 'tenth', 'eleventh', 'twelfth']
+per_wave = ', '.join('%d of %d in the %s' % (waves[w][0], waves[w][1], ordn[ord(w) - ord('a')]) for w in sorted(waves))
 out = '''## 10. Sensitivity: which check catches which seeded change
 
-Seven waves of fourteen independent sub-agents (one per claimed property and wave) were each given
+%s waves of fourteen independent sub-agents (one per claimed property and wave) were each given
 only the text of one property and a scratch git worktree of /repo, nothing from /verif, and asked
 for a small realistic change that breaks the property, still compiles, passes the repository's
-tests and needs something specific to manifest, with a demonstration. The second and third wave
+tests and needs something specific to manifest, with a demonstration (the prompt is
+`seeded/PROMPT.txt`, filled in by `bin/wave-prompt`). The second and third wave
 were steered to a different anchor file of the property than the earlier ones, the fourth to a
 kind of manifestation the earlier ones had not used (a boundary of a tuning constant, state that
 survives between sessions or compilations, a transient fault, a count field, a release ordering),
 the fifth to parts of each property's code that no earlier change had touched, the sixth to
 breakages that need a history (a second session, call or compilation, a retry) or a particular
 interleaving, the seventh away from the kinds of slip the earlier waves had favoured (stale
-buffers, batching indices, lost errors).
+buffers, batching indices, lost errors), the eighth to breakage that depends on concurrency or on
+the environment rather than on an input value (interleavings, relative speed, pooled objects,
+legal corner behaviour of readers, writers and randomness sources; adding a goroutine, a lock, a
+cache or a timeout "for speed" or "for robustness" was welcome).
 All %d changes were
 confirmed by `bin/confirm-seeded` (patch applies to HEAD; `go build ./...`; `go test` of every
 package except the root passes; the demonstration fails with the change and passes without it) and
 are kept under `/verif/seeded/<name>/` (patch.diff, demonstration, NOTES.md of the sub-agent,
 meta.json). `bin/seeded-sweep` applies each one to /repo, runs the quick check of its property and
-reverts; %d own mutants live under `/verif/mutants/` (hand-made ones and every `fix:` commit
-reversed).
+reverts (`bin/try-seeded <worktree> <property>` does the same against a scratch worktree without
+touching /repo); %d own mutants live under `/verif/mutants/` (hand-made ones and every `fix:`
+commit reversed).
 
-%d of the %d were **missed at first** (6 of 14 in the first wave, 3 of 14 in the second, 1 of 14
-in the third, 5 of 14 in the fourth, 3 of 14 in the fifth, 5 of 14 in the sixth - three of these
-five were strengthened from the sub-agent's report before the first run against them; 3 of 14 in
-the seventh, and one more of the seventh is caught by the check of the property it really breaks,
-C15, not by C16's) and led to the extensions marked below; no oracle was loosened or tightened for
+%d of the %d were **missed at first** (%s; three of the five of the sixth wave and one of the
+eighth were strengthened from the sub-agent's report before the first run against them; one more
+of the seventh is caught by the check of the property it really breaks, C15, not by C16's) and led
+to the extensions marked below; no oracle was loosened or tightened for
 them - only workloads, fault kinds, scheduling points, the independence of the harness's
 expectations, (C04) one more monitor clause and (C11) one narrow clause for a new fault kind changed.
+The eighth wave is the odd one out: ten of its fourteen changes were missed at first, because
+nine of them break a property only when *one process does two things at once* (two sessions, two
+compilations, two parses, a background goroutine racing its caller) or when the environment
+behaves legally but unusually (a stalling randomness source, a transport that consumes its
+payload late, a clock) - dimensions the worlds had, until then, only where the unchanged code
+already had goroutines.
 
-| change | property | what was changed | needs | clause that fires | missed at first? |
+''' % (ordn[len(waves) - 1].capitalize(), len(rows), len(own), len(missed), len(rows), per_wave)
+out += '''| change | property | what was changed | needs | clause that fires | missed at first? |
 |---|---|---|---|---|---|
-''' % (len(rows), len(own), len(missed), len(rows))
+'''
 for m in rows:
     miss = ('yes: ' + m.get('strengthening', '')) if m['initially_missed'] else ('no' + (' (' + m['strengthening'] + ')' if m.get('strengthening') else ''))
     out += '| %s | %s | %s | %s | %s | %s |\n' % (m['name'], m['property'], m['change'].replace('|', '/'), m['needs_to_manifest'].replace('|', '/'), m['clause'], miss)
@@ -92,6 +112,24 @@ What the misses taught (kept as rules for the workloads):
 
 * The transport contract has corners: a `Read` may return 0 bytes without error (C11-g). A base OT
   may replace the caller's labels (C06-g). An array may have length zero (C14-g).
+
+* One process does several things *at once*, not only one after the other: two sessions share a
+  circuit value's scratch pool (C02-h) and an `env.Config`'s randomness source (C04-h), two
+  compilations share a pooled writer (C08-h), two parses share pooled flags (C14-h). Every world
+  whose subject can be used from two goroutines now has a concurrent mode, judged per call by
+  the unchanged oracle.
+* The environment has legal behaviours the obvious harness never shows: a randomness source that
+  is slow (C04-h) or returns short reads (C16-h), an `ot.IO` whose `SendData` reads its argument
+  late (C06-h), a writer that blocks (C08-h), a clock (C19-h). They are fault kinds of the
+  simulator now, each off in at least half of the runs.
+* An optimisation adds the goroutines the unchanged code does not have: sizes must reach the
+  point where the new pipeline wraps around (C15-h: more than four chunks; C06-h: more than two;
+  C20-h: more than one write buffer).
+* The tools must survive the change too: a constant used in a constant expression broke the knob
+  rewrite (C05-h, exit 2, not a verdict - now a fallback build without knobs), `select` and
+  `time` were refused or real (now simulated).
+* Statement granularity is not sub-statement granularity: `x = grow(x)` copies and installs in
+  one statement unless the helper has scheduling points of its own (C10-h).
 
 Own mutants (`/verif/mutants/*.diff`; `revert-<commit>` is a `fix:` commit reversed): ''' + ', '.join(own) + '''.
 
